@@ -253,11 +253,14 @@ class World:
         if isinstance(v, VArrow):
             return v.boxes
         if isinstance(v, VTy):
+            if v.elems is not None:
+                return v.elems
             n = T.ty_len(v.t)
             nv = T.int_val(n)
             if nv is not None and nv <= 8:
                 return VList.lit([ex.ty_at(v, T.I(j)) for j in range(nv)])
             base = ex.register_base(BaseList('ty_iter', n, lambda i: ex.ty_at(v, i), 'ob'))
+            base.origin = ('ty', v)
             return VList.of_base(base)
         if isinstance(v, VLayer):
             return VList.lit([v.left, v.box, v.right])
@@ -377,6 +380,19 @@ class World:
             if name in ('boxes', '_boxes'):
                 return VList.lit([obj])     # a cat.Box is the arrow with itself as only box
             return VMethod(obj, name)
+        if isinstance(obj, VOb):
+            # a rigid.Ob is the pair (name, z) (call-site contracts of rigid.Ob.l / .r / .z, contracts/types.py)
+            if name in ('l', 'r'):
+                ex.used.add('rigid.Ob.' + name)
+                o = (T.ob_l if name == 'l' else T.ob_r)(obj.t)
+                ex.assume(T.ob_name(o) == T.ob_name(obj.t))
+                ex.assume(T.ob_z(o) == T.ob_z(obj.t) + (-1 if name == 'l' else 1))
+                return VOb(o)
+            if name in ('z', '_z'):
+                return VInt(T.ob_z(obj.t))
+            if name in ('name', '_name'):
+                return VVal(T.ob_name(obj.t))
+            return VMethod(obj, name)
         if isinstance(obj, VTy):
             if name == 'objects' or name == '_objects':
                 return self.as_sequence(interp, obj)
@@ -493,7 +509,11 @@ class World:
         """t.l / t.r of a rigid type: uninterpreted on sequences, with the pregroup facts instantiated where the term
         is created: same length, mutually inverse, anti-homomorphism on the concatenation t is written as, unit"""
         ex = interp.ex
-        ex.used.add('axiom: rigid adjoints .l / .r preserve length, are mutually inverse and reverse concatenations')
+        # call-site contract of rigid.Ty.l / .r: their pointwise postcondition (contracts/types.py) and the four lemmas
+        # derived from it (length, mutual inverses, anti-homomorphism, unit), lifted to sequences by L-ext
+        for u in ('rigid.Ty.l', 'rigid.Ty.r', 'rigid.Ob.l', 'rigid.Ob.r', 'lemma:adjoint.inverse.l', 'lemma:adjoint.inverse.r',
+                  'lemma:adjoint.antihom.l', 'lemma:adjoint.antihom.r'):
+            ex.used.add(u)
         f, g = (T.tyl, T.tyr) if side == 'l' else (T.tyr, T.tyl)
         parts = T._seq_parts(t)
         if not parts:
@@ -667,6 +687,12 @@ class World:
             return VSlice(*a)
         if cls == 'py.bool':
             return VBool(ex.truth(args[0]))
+        if cls == 'py.str':
+            return VStr(None)        # printed forms are outside the model
+        if cls == 'py.type' and len(args) == 1 and isinstance(args[0], VTy):
+            # the class of a type: the model does not tell monoidal.Ty from its subclasses; what is done with the class
+            # (calling it without arguments, its upgrade) is the same for all of them up to the verified upgrade contracts
+            return VClass('rigid.Ty' if args[0].cls == 'rigid' else 'monoidal.Ty')
         if cls in ('monoidal.Ty', 'rigid.Ty', 'biclosed.Ty') and not args and not kwargs:
             return VTy(T.EMPTY)
         if cls == 'rigid.Id':
@@ -733,8 +759,11 @@ class World:
         if isinstance(recv, VBox) and name == 'dagger':
             return self.box_dagger(interp, recv)
         if isinstance(recv, (VDiagram, VArrow)) and name == 'upgrade':
-            # abstract Upgrade contract (DESIGN 2.4): identity on every modelled field
-            ex.used.add('axiom: Upgrade (class-preserving upgrade) is the identity on the modelled fields')
+            # Upgrade contract (DESIGN 2.4): identity on every modelled field.  Verified for the base classes (`return
+            # old`) and for the closure installed by Diagram.subclass (rigid.Diagram and every subclass built the same
+            # way: the fast-path constructor on the same five fields); contracts/types.py
+            for u in ('cat.Arrow.upgrade', 'monoidal.Diagram.upgrade', 'monoidal.Diagram.subclass.<locals>.upgrade'):
+                ex.used.add(u)
             return args[0]
         if isinstance(recv, VDiagram) and name == 'id':
             return self.apply(interp, 'monoidal.Id.__init__', args, kwargs, construct='monoidal.Id')
@@ -747,6 +776,8 @@ class World:
                     ts.append(a.t)
                 return VTy(T.ty_concat(*ts))
             if name == 'upgrade':
+                ex.used.add('monoidal.Ty.upgrade')
+                ex.used.add('rigid.Ty.upgrade')
                 return args[0]
             if name == 'count':
                 raise Unsupported('Ty.count')
@@ -813,7 +844,11 @@ class World:
                 if q.endswith('.__init__'):
                     return self.apply(interp, q, args, kwargs, construct=q[:-9])
                 return self.apply(interp, q, args, kwargs)
+            if name == 'upgrade' and recv.name in ('monoidal.Ty', 'rigid.Ty'):
+                ex.used.add(recv.name + '.upgrade')       # verified: the same objects (contracts/types.py)
+                return VTy(args[0].t, cls=args[0].cls)
             if name == 'upgrade':
+                ex.used.add('axiom: Upgrade (class-preserving upgrade) is the identity on the modelled fields')
                 return args[0]
             raise Unsupported('class attribute %s.%s' % (recv.name, name))
         if isinstance(recv, VObject) and recv.cls == 'cartesian.Function':
@@ -871,6 +906,7 @@ class World:
 
 # super() resolution: (class owning the method, method) -> qualified callee
 SUPER = {
+    ('monoidal.Ty', '__init__'): 'cat.Ob.__init__', ('rigid.Ob', '__init__'): 'cat.Ob.__init__',
     ('monoidal.Box', '__init__'): 'cat.Box.__init__',
     ('monoidal.Diagram', '__init__'): 'cat.Arrow.__init__',
     ('monoidal.Layer', '__init__'): 'cat.Box.__init__',
